@@ -20,9 +20,9 @@ from rules.dtable import Unknown, Ret, C, A, T, UNIT, lit_value
 QUOTES = ("quote", "quote_spanned", "quote::quote")
 
 
-def CF(name, **fields):
+def CF(ctor_, **fields):
     """constructor with named fields"""
-    return ("ctor", name, (), tuple(sorted(fields.items())))
+    return ("ctor", ctor_, (), tuple(sorted(fields.items())))
 
 
 def L(*items):
@@ -59,11 +59,17 @@ class AEval(dtable.Eval):
         self.funcs = funcs or {}      # name -> astlib.Fn
         self.consts = consts or {}    # path text -> value
         self.builtins = builtins or {}  # method name -> python callable(receiver value, [argument values]) -> value
+        self.path_builtins = {}         # function path (as written, or its last two segments) -> callable([argument values])
+        self.totokens = None            # callable(value) -> token text or None, for values interpolated in quote!
         self.depth = 0
 
     # ---------------------------------------------------------------- values as tokens
     def tokens_of(self, v):
         k = v[0]
+        if self.totokens is not None:
+            t = self.totokens(v)
+            if t is not None:
+                return t
         if k == "tok":
             return v[1]
         if k == "int":
@@ -373,12 +379,17 @@ class AEval(dtable.Eval):
         args = [self.ex(a, env) for a in e["args"]]
         if is_node(f) and f["k"] == "Path":
             last = f["path"].split("::")[-1]
+            for key in (f["path"], "::".join(f["path"].split("::")[-2:])):
+                if key in self.path_builtins:
+                    return self.path_builtins[key](args)
             if f["path"] in env:
                 return self.apply(env[f["path"]], args)
             if last in self.funcs:
                 return self.call_fn(last, args)
             if last[:1].isupper():
                 return C(last, *args)
+            if f["path"] in ("Vec::new", "Vec::with_capacity", "BTreeMap::new", "BTreeSet::new", "HashMap::new", "HashSet::new", "VecDeque::new"):
+                return L()
             if last in ("from", "into", "clone", "to_token_stream", "to_owned") and len(args) == 1:
                 return args[0]
             if last == "take" and f["path"].endswith("mem::take") and len(args) == 1:
@@ -396,6 +407,22 @@ class AEval(dtable.Eval):
                 return C("None")
             env[rnode["path"]] = ("list", lst[1:])
             return C("Some", lst[0])
+        if m in ("push", "push_back", "insert", "extend") and is_node(rnode) and rnode["k"] == "Path" and rnode["path"] in env and env[rnode["path"]][0] == "list":
+            vals = [self.ex(a, env) for a in e["args"]]
+            cur = list(env[rnode["path"]][1])
+            if m in ("push", "push_back") and len(vals) == 1:
+                cur.append(vals[0])
+            elif m == "insert" and len(vals) == 2:
+                cur = [x for x in cur if not (x[0] == "tuple" and len(x[1]) == 2 and x[1][0] == vals[0])] + [T(vals[0], vals[1])]
+            elif m == "insert" and len(vals) == 1:
+                if vals[0] not in cur:
+                    cur.append(vals[0])
+            elif m == "extend" and len(vals) == 1 and vals[0][0] == "list":
+                cur.extend(vals[0][1])
+            else:
+                raise Unknown("mutation " + m)
+            env[rnode["path"]] = ("list", tuple(cur))
+            return UNIT
         if m in ("write_str", "push_str", "write_char", "push") and len(e["args"]) == 1 and is_node(rnode) and rnode["k"] == "Path" \
                 and not (rnode["path"] in env and env[rnode["path"]][0] == "list"):
             v = self.ex(e["args"][0], env)
@@ -514,6 +541,22 @@ class AEval(dtable.Eval):
                     if v[0] == "ctor" and v[1] == "Err":
                         return v
                 return C("Ok", UNIT)
+            pairs = bool(xs) and all(x[0] == "tuple" and len(x[1]) == 2 for x in xs)
+            if m in ("keys", "into_keys") and (pairs or not xs):
+                return L(*[x[1][0] for x in xs])
+            if m in ("into_values", "values_mut") and (pairs or not xs):
+                return L(*[x[1][1] for x in xs])
+            if m == "get" and pairs and args and args[0][0] != "int":
+                for x in xs:
+                    if x[1][0] == args[0]:
+                        return C("Some", x[1][1])
+                return C("None")
+            if m == "contains_key" and (pairs or not xs):
+                return B(any(x[1][0] == args[0] for x in xs))
+            if m == "difference" and args[0][0] == "list":
+                return L(*[x for x in xs if x not in args[0][1]])
+            if m == "intersection" and args[0][0] == "list":
+                return L(*[x for x in xs if x in args[0][1]])
             if m == "get" and args[0][0] == "int":
                 return C("Some", xs[args[0][1]]) if 0 <= args[0][1] < len(xs) else C("None")
         if r[0] == "ctor" and r[1] in ("Some", "None"):
@@ -668,30 +711,37 @@ class AEval(dtable.Eval):
         return super().pat(p, v, env)
 
     def block(self, b, env):
+        outer = env
         env = dict(env)
+        shadow = set()
         last = UNIT
-        for st in b["stmts"]:
-            k = st["k"]
-            if k == "Let":
-                if "init" not in st:
-                    continue
-                v = self.ex(st["init"], env)
-                bd = self.pat(st["pat"], v, env)
-                if bd is None:
-                    if "else" in st:
-                        self.ex(st["else"], env)
-                        raise Unknown("let-else body fell through")
-                    raise Unknown("irrefutable let did not match")
-                env.update(bd)
-                last = UNIT
-            elif k == "ExprStmt":
-                v = self.ex(st["expr"], env)
-                last = UNIT if st.get("semi") else v
-            elif k == "Fn":
-                last = UNIT
-            else:
-                last = UNIT
-        return last
+        try:
+            for st in b["stmts"]:
+                k = st["k"]
+                if k == "Let":
+                    if "init" not in st:
+                        continue
+                    v = self.ex(st["init"], env)
+                    bd = self.pat(st["pat"], v, env)
+                    if bd is None:
+                        if "else" in st:
+                            self.ex(st["else"], env)
+                            raise Unknown("let-else body fell through")
+                        raise Unknown("irrefutable let did not match")
+                    env.update(bd)
+                    shadow |= set(bd)
+                    last = UNIT
+                elif k == "ExprStmt":
+                    v = self.ex(st["expr"], env)
+                    last = UNIT if st.get("semi") else v
+                else:
+                    last = UNIT
+            return last
+        finally:
+            # assignments / pushes to variables of the enclosing scope stay visible there
+            for kk in outer:
+                if kk not in shadow and kk in env:
+                    outer[kk] = env[kk]
 
     def iff(self, n, env):
         c = n["cond"]
@@ -701,7 +751,12 @@ class AEval(dtable.Eval):
             if b is not None:
                 e2 = dict(env)
                 e2.update(b)
-                return self.ex(n["then"], e2)
+                try:
+                    return self.ex(n["then"], e2)
+                finally:
+                    for kk in env:
+                        if kk not in b and kk in e2:
+                            env[kk] = e2[kk]
             return self.ex(n["else"], env) if n.get("else") else UNIT
         if self.truth(c, env):
             return self.ex(n["then"], env)
